@@ -192,6 +192,14 @@ def run(ctx, model_ok):
                       f'{cb(bool(q["log"]["process"]))}, {vlib.cstr_bytes(q["log"]["message"])}, {vlib.cstr_bytes(r["line"])})')
     hcases = []
     for m, r in zip(cmeta, cres):
+        # independent statement of the callstack line: one line of enabled columns, then one line per frame, frame i indented by
+        # i spaces - and nothing else (no trailing line break, also for a sample without frames)
+        if 'line' in r:
+            ls = r['line'].split('\n')
+            want = [' ' * i + (f'{uuid_text(u)}:0x{off:016x}' if u is not None else f'0x{a:016x}') for i, (a, u, off) in enumerate(m['frames'])]
+            if ls[1:] != want or (not m['bits'][0] and not m['bits'][3] and not m['bits'][4] and ls[0] != ''):
+                ctx.failing.append({'input': m, 'expected': {'lines after the first': want}, 'actual': r['line'],
+                                    'why': 'callstack line is not: the enabled columns, then one line per frame indented by its index'})
         fr = clist([f'({cN(a)}, ' + ('None' if u is None else f'(Some ({vlib.cstr_bytes(uuid_text(u))}, {cN(off)}))') + ')' for a, u, off in m['frames']])
         tm = clist([f'({cN(t)}, {cN(p)}, {vlib.cstr_bytes(n)})' for t, p, n in m['tm']])
         hcases.append(f'({clist([cb(b) for b in m["bits"]])}, {tm}, {cN(m["ts"])}, {cN(m["tid"])}, {fr}, {vlib.cstr_bytes(r["line"])})')
